@@ -890,14 +890,17 @@ def run_jobs(jobs, timeout_each=30, workers=6):
             db = j["db"] if os.path.isabs(j["db"]) else os.path.join(vlib.DB, j["db"])
             jf = os.path.join(wd, "jobs.tsv")
             open(jf, "w").write("%d\t%s\t%s\t%s\n" % (k, db, inp, ",".join(j.get("flags", []))))
-            rc, so, se = vlib.sh([exe, jf], cwd=wd, timeout=timeout_each)
-            for line in so.split("\n"):
-                if line.startswith("{"):
-                    try:
-                        return json.loads(line)
-                    except Exception:
-                        pass
-            return {"job": str(k), "timeout": rc == 124, "crash": rc != 124, "rc_proc": rc, "stderr": se[-1500:]}
+            # a job without a result (time limit, crash) is run a second time with four times the limit before it is believed: on a
+            # loaded machine a slow run must not be reported as "does not return" (a genuine hang or crash reproduces)
+            for attempt, limit in enumerate((timeout_each, 4 * timeout_each)):
+                rc, so, se = vlib.sh([exe, jf], cwd=wd, timeout=limit)
+                for line in so.split("\n"):
+                    if line.startswith("{"):
+                        try:
+                            return json.loads(line)
+                        except Exception:
+                            pass
+            return {"job": str(k), "timeout": rc == 124, "crash": rc != 124, "rc_proc": rc, "stderr": se[-1500:], "attempts": 2}
         with cf.ThreadPoolExecutor(max_workers=workers) as ex:
             for k, r in enumerate(ex.map(one, range(len(jobs)))):
                 res[jobs[k]["id"]] = r
